@@ -99,11 +99,13 @@ def oracle_mphys(R, tier, seed):
     rng = gen.stable_rng(seed, "c19mphys")
     F = MV.Aerodynamics.FlowConditions
     for it in range(2 if tier == "quick" else 6):
-        ns = 1 + it % 2
+        # three surfaces of different sizes in the quick tier too: the flattened-vector index maps of the wrappers (block offsets)
+        # are only distinguishable from "offset = size of the previous surface" from the third surface on
+        ns = [1, 3, 2, 3, 2, 4][it % 6]
         comp = bool(it % 2)
         meshes = []
         for si in range(ns):
-            nx, ny = [(2, 3), (3, 5)][int(rng.integers(0, 2))]
+            nx, ny = [(2, 3), (3, 5), (2, 5)][(int(rng.integers(0, 3)) + si) % 3]
             meshes.append(gen.rand_mesh(rng, nx, ny, "full", offset=False) + np.array([4.5 * si, 0.0, 0.7 * si]))
         names = ["s%d" % i for i in range(ns)]
         surfs = [aero.aero_surface(m, name=n, symmetry=False, with_viscous=True) for m, n in zip(meshes, names)]
